@@ -108,6 +108,23 @@ def run(ctx, F):
         else:
             ctx.fail("F8-builtin-marker", f"{u} mentions @scope_name@", f"{u} treats the built-in marker variable specially: copies of a built-in module (through @forward / `as *`) may lose the protection against assignment", where=prog.bodies[u].where())
     ctx.floor("functions mentioning the built-in marker", len(set(users)), 3)
+    # the refusal to assign to a built-in module's variable must be decided by the marker variable: the marker is
+    # copied along when a built-in module is re-exported (@forward, `as *`), the identity of the scope is not
+    sv = prog.one("<variablescope::Scope>::set_variable")
+    dom = sv.dominators()
+    refusals = sorted({bi for bi, si, st in sv.stmts() if st["k"] == "assign" and st["rv"]["k"] == "agg" and st["rv"].get("variant") == "ModifiedBuiltin"})
+    marker_tests = []
+    for bi, t in sv.calls():
+        if any("@scope_name@" in repr(S.operand(sv, a)) for a in t["args"]) and not (mir.callee_name(t) or "").endswith("Name>::from_static"):
+            marker_tests.append(bi)
+    ctx.floor("ModifiedBuiltin refusals in Scope::set_variable", len(refusals), 1)
+    for r in refusals:
+        key = f"set_variable|ModifiedBuiltin{'' if r == refusals[0] else '#' + str(refusals.index(r))}"
+        if any(m in dom.get(r, ()) for m in marker_tests):
+            ctx.ok("F3-builtin-assign-guard", key, "decided by a lookup of the @scope_name@ marker in the target module")
+        else:
+            ctx.fail("F3-builtin-assign-guard", key, "the refusal `Cannot modify built-in variable` is not decided by a lookup of the @scope_name@ marker in the target module: "
+                     "a built-in module re-exported through @forward or `as *` is a copy that keeps the marker but not the scope's identity, so its variables become assignable", where=sv.where(r))
     # ---------------------------------------------------------------- (iii) namespace
     du = tree.one_method("variablescope::Scope", "do_use")
     keep = None
